@@ -166,6 +166,100 @@ theorem printed_keys_live (cmp : K → K → Ordering) [TransCmp cmp] (levels : 
     obtain ⟨i, hi, rfl⟩ := List.mem_map.mp hm
     exact ⟨i, hi, he⟩
 
+/-! ### the map laws a caller relies on, as corollaries (from any state satisfying the invariant) -/
+
+/-- a `Get` after `Put` of an equal key returns the value put -/
+theorem get_put_same (cmp : K → K → Ordering) [TransCmp cmp] (levels : Nat) (s : State K V) (k k' : K)
+    (v : V) (h : Nat) (hi : Inv cmp levels s) (h1 : 1 ≤ h) (h2 : h ≤ levels) (he : cmp k' k = .eq) :
+    Golem.Model.Skiplist.get cmp (put cmp s k v h) k' = v := by
+  rw [(get_like_map cmp levels _ k' (inv_put cmp levels s k v h hi h1 h2)).1,
+    (update_like_map cmp levels s k v h hi h1 h2).1]
+  simp [Spec.get, Spec.put, he]
+
+/-- … and leaves the answer for every other key unchanged -/
+theorem get_put_other (cmp : K → K → Ordering) [TransCmp cmp] (levels : Nat) (s : State K V) (k k' : K)
+    (v : V) (h : Nat) (hi : Inv cmp levels s) (h1 : 1 ≤ h) (h2 : h ≤ levels) (hne : cmp k' k ≠ .eq) :
+    Golem.Model.Skiplist.get cmp (put cmp s k v h) k' = Golem.Model.Skiplist.get cmp s k' := by
+  rw [(get_like_map cmp levels _ k' (inv_put cmp levels s k v h hi h1 h2)).1,
+    (update_like_map cmp levels s k v h hi h1 h2).1, (get_like_map cmp levels s k' hi).1]
+  simp [Spec.get, Spec.put, hne]
+
+/-- a `Get` (or a second `Remove`) after `Remove` of an equal key returns the zero value -/
+theorem get_remove_same (cmp : K → K → Ordering) [TransCmp cmp] (levels : Nat) (s : State K V) (k k' : K)
+    (hi : Inv cmp levels s) (he : cmp k' k = .eq) :
+    Golem.Model.Skiplist.get cmp (remove cmp s k).1 k' = default ∧
+    (remove cmp (remove cmp s k).1 k').2 = default := by
+  have hg := get_like_map cmp levels _ k' (inv_remove cmp levels s k hi)
+  rw [hg.1, hg.2, (update_like_map cmp levels s k default 1 hi (Nat.le_refl 1) hi.levels_pos).2]
+  simp [Spec.get, Spec.remove, he]
+
+/-- … and `Remove` leaves the answer for every other key unchanged -/
+theorem get_remove_other (cmp : K → K → Ordering) [TransCmp cmp] (levels : Nat) (s : State K V) (k k' : K)
+    (hi : Inv cmp levels s) (hne : cmp k' k ≠ .eq) :
+    Golem.Model.Skiplist.get cmp (remove cmp s k).1 k' = Golem.Model.Skiplist.get cmp s k' := by
+  rw [(get_like_map cmp levels _ k' (inv_remove cmp levels s k hi)).1,
+    (update_like_map cmp levels s k default 1 hi (Nat.le_refl 1) hi.levels_pos).2,
+    (get_like_map cmp levels s k' hi).1]
+  simp [Spec.get, Spec.remove, hne]
+
+/-- `Put` overwrites: a second `Put` on an equal key makes the first one unobservable -/
+theorem put_put_overwrites (cmp : K → K → Ordering) [TransCmp cmp] (levels : Nat) (s : State K V) (k k' : K)
+    (v v' : V) (h h' h'' : Nat) (hi : Inv cmp levels s) (h1 : 1 ≤ h) (h2 : h ≤ levels)
+    (h1' : 1 ≤ h') (h2' : h' ≤ levels) (h1'' : 1 ≤ h'') (h2'' : h'' ≤ levels) (he : cmp k' k = .eq) :
+    lookup cmp (put cmp (put cmp s k v h) k' v' h') = lookup cmp (put cmp s k v' h'') := by
+  rw [(update_like_map cmp levels _ k' v' h' (inv_put cmp levels s k v h hi h1 h2) h1' h2').1,
+    (update_like_map cmp levels s k v h hi h1 h2).1, (update_like_map cmp levels s k v' h'' hi h1'' h2'').1]
+  funext x
+  simp only [Spec.put]
+  by_cases hx : cmp x k' = .eq
+  · have : cmp x k = .eq := TransCmp.eq_trans hx he
+    simp [hx, this]
+  · have : cmp x k ≠ .eq := fun hxk => hx (TransCmp.eq_trans hxk (OrientedCmp.eq_symm he))
+    simp [hx, this]
+
+
+/-- keys the comparison identifies get the same answer -/
+theorem lookup_congr (cmp : K → K → Ordering) [TransCmp cmp] (s : State K V) {x k : K} (h : cmp x k = .eq) :
+    lookup cmp s x = lookup cmp s k := by
+  unfold lookup lookupIn
+  have : (fun i => decide (cmp (s.key i) x = .eq)) = (fun i => decide (cmp (s.key i) k = .eq)) := by
+    funext i; rw [TransCmp.congr_right h]
+  rw [this]
+
+theorem get_congr (cmp : K → K → Ordering) [TransCmp cmp] (levels : Nat) (s : State K V) (x k : K)
+    (hi : Inv cmp levels s) (h : cmp x k = .eq) :
+    Golem.Model.Skiplist.get cmp s x = Golem.Model.Skiplist.get cmp s k := by
+  rw [(get_like_map cmp levels s x hi).1, (get_like_map cmp levels s k hi).1]
+  simp only [Spec.get, lookup_congr cmp s h]
+
+/-- `Remove` of an absent key changes nothing a caller can see -/
+theorem remove_absent (cmp : K → K → Ordering) [TransCmp cmp] (levels : Nat) (s : State K V) (k : K)
+    (hi : Inv cmp levels s) (habs : lookup cmp s k = none) :
+    (remove cmp s k).2 = default ∧ lookup cmp (remove cmp s k).1 = lookup cmp s := by
+  refine ⟨?_, ?_⟩
+  · rw [(get_like_map cmp levels s k hi).2]; simp [Spec.get, habs]
+  · rw [(update_like_map cmp levels s k default 1 hi (Nat.le_refl 1) hi.levels_pos).2]
+    funext x
+    simp only [Spec.remove]
+    split
+    · next hx => rw [← habs]; exact (lookup_congr cmp s hx).symm
+    · rfl
+
+/-- the same laws in every reachable state: after any history, a `Put` is read back by `Get` on an equal key,
+    is invisible on the other keys, and a `Remove` makes the key answer with the zero value -/
+theorem reachable_map_laws (cmp : K → K → Ordering) [TransCmp cmp] (levels : Nat) (hl : 0 < levels)
+    (ops : List (Op K V)) (hok : ∀ o ∈ ops, o.heightOk levels) (k k' : K) (v : V) (h : Nat)
+    (h1 : 1 ≤ h) (h2 : h ≤ levels) :
+    let s := (run cmp (init levels) ops).1
+    (cmp k' k = .eq → Golem.Model.Skiplist.get cmp (put cmp s k v h) k' = v) ∧
+    (cmp k' k ≠ .eq → Golem.Model.Skiplist.get cmp (put cmp s k v h) k' = Golem.Model.Skiplist.get cmp s k') ∧
+    (cmp k' k = .eq → Golem.Model.Skiplist.get cmp (remove cmp s k).1 k' = default) ∧
+    (cmp k' k ≠ .eq → Golem.Model.Skiplist.get cmp (remove cmp s k).1 k' = Golem.Model.Skiplist.get cmp s k') := by
+  intro s
+  have hi := inv_reachable cmp levels hl ops hok
+  exact ⟨get_put_same cmp levels s k k' v h hi h1 h2, get_put_other cmp levels s k k' v h hi h1 h2,
+    fun he => (get_remove_same cmp levels s k k' hi he).1, get_remove_other cmp levels s k k' hi⟩
+
 /-! ### non-vacuity -/
 
 /-- the hypotheses are satisfiable: natural and reversed order on integers, strings -/
